@@ -236,6 +236,9 @@ func initDateSpan() {
 		func(_ *Thread, args []value.Value) (value.Value, value.Value) {
 			self := args[0].AsDateSpan()
 			other := (*value.BigFloat)(args[1].Pointer())
+			if other.IsZero() {
+				return value.Undefined, value.Ref(value.NewZeroDivisionError())
+			}
 			return value.Ref(self.DivideBigFloat(other)), value.Undefined
 		},
 		DefWithParameters(1),
